@@ -83,13 +83,18 @@ func oneC03(text string) string {
 		return "build:" + canonBuild(text, nil, err, false)
 	}
 	listing := canonListing(mach.PrintMachine())
-	tree := &mockTree{hash: true}
-	res := xpath.NewCtxFromCurrent(gocontext.Background(), mach, &mockEntry{t: tree}).Run()
-	out := strings.Join(tree.calls, ";") + " => "
-	if e := res.GetError(); e != nil {
-		out += "error:internal"
-	} else {
-		out += showResult(res)
+	run := func() string {
+		tree := &mockTree{hash: true}
+		res := xpath.NewCtxFromCurrent(gocontext.Background(), mach, &mockEntry{t: tree}).Run()
+		out := strings.Join(tree.calls, ";") + " => "
+		if e := res.GetError(); e != nil {
+			return out + "error:internal"
+		}
+		return out + showResult(res)
+	}
+	out := run()
+	if again := run(); again != out {
+		out = "RERUN-DIFFERS: " + out + " || " + again
 	}
 	return listing + " ## " + out
 }
